@@ -8,13 +8,15 @@ from . import paths as P
 EXPLANATION = (
     "Decides structural necessary conditions of C06 from MIR: (R1) atomicity of each logical store operation against the "
     "age-based commit: with bottom-up effect summaries (Mutate = writes a table inside Store::modify; MayCommit = reaches "
-    "TransactionAndTables::commit, i.e. Store::{tables,modify,flush,snapshot,snapshot_owned}), no MayCommit call is reachable "
+    "TransactionAndTables::commit, computed from the call graph), no MayCommit call is reachable "
     "after a Mutate call inside one operation (ranger::Store::put bound to StoreInstance, remove_replica, import_namespace, "
     "register_useful_peer, set_download_policy, import_author, delete_author); (R2) every table write happens inside a closure "
-    "passed to Store::modify or in a migration, and commit is called only by the transaction managers; (R3) flush commits an "
-    "open write transaction and propagates the error, Drop for Store flushes, the actor's FlushStore replies with flush's "
-    "result, the age check compares elapsed time with MAX_COMMIT_DELAY. NOT decided: redb's recovery, enumeration of crash "
-    "instants."
+    "passed to Store::modify or in a migration, commit is called only by the transaction managers, durability is never lowered; "
+    "(R3) Drop for Store flushes, the actor's FlushStore replies with flush's result, the age check compares elapsed time with "
+    "MAX_COMMIT_DELAY; (R4) the shared-transaction manager (flush, snapshot, snapshot_owned, tables, modify) evaluated as a "
+    "transition table over {None, Read, Write} x {fresh, aged} x {commit ok, fails} x {body ok, fails}: an open write transaction "
+    "is committed - never dropped - before it is replaced, a failed commit is reported, a failing body leaves the shared "
+    "transaction open. NOT decided: redb's recovery, enumeration of crash instants."
 )
 ASSUMPTIONS = ["redb write transactions are atomic and durable at commit (trusted)", "an uncommitted transaction is invisible after a crash"]
 
@@ -307,19 +309,22 @@ def r4(ctx):
         spec[(fn, "Read", False, True)] = (res_new, "Write(%s)" % NEW_W, ["begin_write"] + tail_new)
         spec[(fn, "Write", False, True)] = (res_old, "Write(wtx)", tail_old)
         if run_f:
-            # modify is a step of an operation: it must not place a commit between that operation's writes, however old the transaction is
-            spec[(fn, "Write", True, True)] = (res_old, "Write(wtx)", tail_old)
+            # whether modify may replace an aged transaction is R1's question (no commit point between the writes of one operation);
+            # as a transaction manager it may either reuse it or commit it and continue in a new one - never drop it
+            spec[(fn, "Write", True, True)] = [(res_old, "Write(wtx)", tail_old), (res_new, "Write(%s)" % NEW_W, ["commit(wtx)", "begin_write"] + tail_new)]
         else:
             spec[(fn, "Write", True, True)] = (res_new, "Write(%s)" % NEW_W, ["commit(wtx)", "begin_write"] + tail_new)
             spec[(fn, "Write", True, False)] = ("Err(", None, ["commit(wtx)"])
-    for (fn, state, old, cok), (wres, wfin, wlog) in spec.items():
+    for (fn, state, old, cok), alts in spec.items():
+        alts = alts if isinstance(alts, list) else [alts]
+        wres, wfin, wlog = alts[0]
         b = f.body("store::fs::Store::" + fn)
         ctx.touch(*f.scope(b.path, prefix="store::fs::Store::"))
         got, fin, log = eval_txmgr(f, fn, state, old, cok)
-        ok = got.startswith(wres) and (wfin is None or fin == wfin) and log == wlog
+        ok = any(got.startswith(r) and (fn_ is None or fin == fn_) and log == l for r, fn_, l in alts)
         ctx.check(ok, "C06.R4", b.path, "tx[%s%s%s]" % (state, ",older-than-MAX_COMMIT_DELAY" if old else "", ",commit-fails" if not cok else ""),
                   "returns %s, leaves %s open, redb calls %s; spec: %s, %s, %s (an open write transaction is committed - never dropped - before it is replaced; a failed commit is reported; "
-                  "a write transaction is reused by modify() whatever its age so that one operation's writes stay together; aged transactions are committed by tables(), at the read that starts an operation)" % (got, fin, log, wres, wfin, wlog), b.sp)
+                  "where a commit point may fall inside an operation is decided by R1)" % (got, fin, log, wres, wfin, wlog), b.sp)
     # a failing transaction body is reported, and the shared transaction stays open: what earlier operations wrote into it
     # is neither committed on the spot nor rolled back
     mb = f.body("store::fs::Store::modify")
